@@ -566,6 +566,20 @@ func (s *sim) genStakingPayload(a *acct, f *txFields) (data []byte, what string,
 		}
 		return enc(staking.ValidatorCreate, tx), fmt.Sprintf("validator-create %s %v", vk.Name(), amt), amt, false
 	case 2: // deposit to a validator this client operates (or claims to)
+		if gk := s.genesisOp[a.addr]; gk != nil && (len(s.clientVals) == 0 || c.Chance("dep-genesis-val", 1, 2)) {
+			// this client operates a genesis Senator: the validator exists from the first block on
+			amt := tokens(int64(1 + c.Intn("gdep", 50)))
+			if c.Chance("gdep-over-max", 1, 3) {
+				// affordable, but the validator would exceed its role's maximum stake: refused by
+				// the handler after its balance check (a failed transaction stakes nothing)
+				amt = tokens(int64(180_000 + c.Intn("gdep-over", 1000)))
+			}
+			if c.Chance("gdep-as-withdraw", 1, 5) {
+				w := tokens(int64(1 + c.Intn("gwd", 2000)))
+				return enc(staking.ValidatorWithDraw, &staking.TxValidatorWithdraw{MainAddress: gk.Addr, Recipient: a.addr, Value: w, Nonce: f.Nonce}), fmt.Sprintf("validator-withdraw %s %v", gk.Name(), w), nil, false
+			}
+			return enc(staking.ValidatorDeposit, &staking.TxValidatorDeposit{MainAddress: gk.Addr, Value: amt, Nonce: f.Nonce}), fmt.Sprintf("validator-deposit %s %v", gk.Name(), amt), amt, false
+		}
 		if len(s.clientVals) == 0 {
 			v := targets[0]
 			amt := tokens(10)
